@@ -229,3 +229,63 @@ func VH_C12_events(kind int) {
 	vassert(len(in.execs) == 3, "each-event-runs-the-rule-once")
 	vreach("end")
 }
+
+// VH_C12_event_vs: one client's event concurrent with another client's write to the same
+// location: no race, no deadlock, no crash; the event completes, and runs the matching
+// rule at most once (exactly once when the write does not remove or disable it).
+// op: 0 AddRule r1 again (same rule), 1 RemRule r1, 2 AddFact, 3 EnableRule(r1,false),
+// 4 Clear, 5 AddRule of another rule r2 that matches too.
+func VH_C12_event_vs(kind, op int) {
+	env := vhNewEnv(kind)
+	in := &vhInterpSync{}
+	c := DefaultControl()
+	c.ActionInterpreters = map[string]ActionInterpreter{"vh": in}
+	env.loc.SetControl(c)
+	rule := vhRule(map[string]interface{}{"a": "?x"}, "act")
+	_, err := env.loc.AddRule(env.ctx, "r1", rule)
+	vassume(err == nil)
+	_, cond := env.loc.ProcessEvent(env.ctx, Map{"a": "0"}) // warm the rule cache
+	vassume(cond == nil)
+	var wg sync.WaitGroup
+	wg.Add(2)
+	var c1 *Condition
+	var werr error
+	ctx1, ctx2 := env.ctx.SubContext(), env.ctx.SubContext()
+	go func() {
+		_, c1 = env.loc.ProcessEvent(ctx1, Map{"a": "1"})
+		wg.Done()
+	}()
+	go func() {
+		switch op {
+		case 0:
+			_, werr = env.loc.AddRule(ctx2, "r1", vhRule(map[string]interface{}{"a": "?x"}, "act"))
+		case 1:
+			_, werr = env.loc.RemRule(ctx2, "r1")
+		case 2:
+			_, werr = env.loc.AddFact(ctx2, "f", Map{"k": "v"})
+		case 3:
+			werr = env.loc.EnableRule(ctx2, "r1", false)
+		case 4:
+			werr = env.loc.Clear(ctx2)
+		case 5:
+			_, werr = env.loc.AddRule(ctx2, "r2", vhRule(map[string]interface{}{"a": "?y"}, "act2"))
+		}
+		wg.Done()
+	}()
+	wg.Wait()
+	vassert(werr == nil, "write-succeeds")
+	vassert(c1 == nil, "event-complete")
+	n1 := 0
+	for _, e := range in.execs[1:] {
+		if e == "act" {
+			n1++
+		}
+	}
+	switch op {
+	case 0, 2, 5:
+		vassert(n1 == 1, "each-event-runs-the-rule-once")
+	default:
+		vassert(n1 <= 1, "each-event-runs-the-rule-once")
+	}
+	vreach("end")
+}
